@@ -644,3 +644,33 @@ Proof.
     pose proof (amounts_owed_no_panic dvs (reserves p) u (supply p) Hd Hu HS HR).
     destruct (amounts_owed dvs u (supply p) (reserves p)); cbn [snd]; try discriminate. congruence.
 Qed.
+
+(* ---------------------------------------------------------------------------------------------- *)
+(* the round trip without any premise on the state: either nothing is gained, or the pool had
+   reserves but no units (the documented first-contributor case) and then the redemption is still
+   bounded by the reserves *)
+Lemma unowned_dec p : {unowned_reserves p} + {~ unowned_reserves p}.
+Proof.
+  unfold unowned_reserves. destruct (Z.eq_dec (supply p) 0) as [E|E]; [|right; tauto].
+  destruct (Exists_dec (fun r => r <> 0) (reserves p)) as [H|H].
+  - intros x. destruct (Z.eq_dec x 0); [right; tauto|left; auto].
+  - left. split; [auto|]. apply Exists_exists in H. destruct H as [r [Hin Hr]]. eauto.
+  - right. intros [_ [r [Hin Hr]]]. apply H. apply Exists_exists. eauto.
+Qed.
+
+Theorem round_trip_total k dvs p cs p' m ts owed :
+  kind_ok k dvs -> wf_divs dvs -> wf_pool dvs p -> Forall2 valid_amount dvs cs ->
+  contribute k dvs p cs = POk (p', m, ts) ->
+  amounts_owed dvs m (supply p') (reserves p') = POk owed ->
+  Forall2 Z.le owed ts \/
+  (unowned_reserves p /\ supply p' = m /\
+   Forall2 (owed_bound m (supply p')) owed (combine dvs (reserves p'))).
+Proof.
+  intros Hk Hd Hw Hv Hc Ho. destruct (unowned_dec p) as [Hu|Hu].
+  - right. split; [auto|].
+    destruct (contribute_wf _ _ _ _ _ _ _ Hc Hk Hd Hw Hv) as ((HS' & HL' & HR') & Hpos & _).
+    destruct (contribute_shape _ _ _ _ _ _ _ Hc Hk Hd Hw Hv) as (Hs' & Hm & _).
+    destruct Hu as [Hz _]. split; [lia|].
+    apply amounts_owed_ok in Ho; auto; try lia. apply owed_are_bound; auto; lia.
+  - left. eapply no_round_trip_gain; eauto.
+Qed.
